@@ -18,7 +18,27 @@ PROPERTY = 'C11'
 LEAN_TARGETS = ['CpProofs.C11', 'drv_c11']
 DRIVER = 'drv_c11'
 THEOREMS = [
+    # posixpath algebra
+    'CpProofs.C11.splitSlash_append_sep',
+    'CpProofs.C11.components_append_sep',
+    'CpProofs.C11.normpath_idem',
+    'CpProofs.C11.normpath_isAbs',
+    'CpProofs.C11.normpath_abs_components_plain',
+    'CpProofs.C11.normpath_rel_dotdot_only_leading',
+    'CpProofs.C11.normpath_abs_components',
+    'CpProofs.C11.containedCheck_components',
+    # static.staticdir
+    'CpProofs.C11.C11_static_contained',
+    'CpProofs.C11.C11_refused_untouched',
+    'CpProofs.C11.static_forbidden_iff',
+    'CpProofs.C11.index_dotdot_escapes',
     'CpProofs.C11.strPrefix_static_counterexample',
+    # sessions.FileSession
+    'CpProofs.C11.sessionCheck_components',
+    'CpProofs.C11.lock_prefix',
+    'CpProofs.C11.C11_session_contained',
+    'CpProofs.C11.C11_session_refused_untouched',
+    'CpProofs.C11.strPrefix_session_counterexample',
 ]
 LEVEL = 'proof'
 TECHNIQUE = ('Lean 4 proof over a transcription of posixpath.normpath/join/abspath, staticdir and '
